@@ -38,3 +38,26 @@ PROPS = {
     "C20": loop_prop(["OBS_C20"], ["C20"],
                      "C20_error_stops: an Err answer to any driver call is the last entry of the transcript and the return value; observation OBS_C20 = calls after the Err answer and the return value, with an Err injected at every call index"),
 }
+
+# ---- second engine of C10: the real loop with the REAL driver over pipes (tools/engines/realloop.py)
+REALLOOP_TRUST = [
+    "realloop engine: what LoopEnv.v only ASSUMES (edge-triggered readiness + drain-until-Busy never loses an event) is tested against the kernel: the real do_remapping_loop_one_device runs with the real RealDriver (mio/epoll, DevInputReader, TabletModeSwitchReader, DevInputWriter; hook remapping_loop::verif::run_real_driver_on_fds) in a child process over three pipes, and the bytes it writes are compared with concat (map encode_batch (filter non_nil (mrun L init inputs))) computed by the extracted definitions (coq/extract/Extract_realloop.v: Wire.decode_stream, MapperInv.mrun, LoopSpec.non_nil, Wire.encode_batch). Trusted there: pipes in place of evdev/uinput nodes (whole records only: the parent keeps the pipes far from full), the parent's bookkeeping of what it wrote, FIONREAD as the witness that input was read, a no-progress deadline of 6 s as the only timing element.",
+]
+REALLOOP_RULE = (" || realloop engine: 5 fixed layouts without Special repeat + seeded family_multi layouts with Special repeats replaced by Normal/Disabled "
+                 "+ the builtin layouts; key histories of 20-400 events drawn as above; each history is turned into a record script (bare, or evdev-like "
+                 "MSC_SCAN/key/SYN_REPORT triples with auto-repeat runs, or random EV_MSC/EV_SYN/value-2/unknown-code/EV_LED/EV_SW records interleaved) and "
+                 "written to the keyboard pipe in write(2) calls of 1..=8, 1..=64, 1..=300 records, small writes followed by ONE final burst of 100-300 "
+                 "records, or 300 at a time, with pauses of 0-3 ms; the tablet pipe is registered and idle, in half of the runs one EV_SW On is written "
+                 "after all expected output was seen and the release-all batch is awaited; evaluations += runs of the real loop in a child process; "
+                 "distinct_nontrivial += distinct (layout, record script) whose expected output is not empty")
+PROPS["C10"] = dict(PROPS["C10"],
+                    engines=["loop", "realloop"],
+                    trusted=LOOP_TRUST + REALLOOP_TRUST,
+                    rule=LOOP_RULE + REALLOOP_RULE,
+                    explanation=PROPS["C10"]["explanation"] +
+                    ". Second engine realloop: the same statement is checked end to end on the real loop with the real epoll driver over pipes "
+                    "(any batching of the input into write(2) calls gives exactly the bytes of the model's sends; nothing stays unread while the loop "
+                    "sleeps; nothing is written after the end); a deviation is reported as clause C10.real_epoll with layout, history, batching and the "
+                    "first differing record. A difference that is exactly what the in-process real Mapper computes is reported in class OBS_C10 instead "
+                    "(the mapper differs from its model, the loop transported it faithfully)",
+                    assumptions=LOOP_ASSUME + ["realloop: a pipe never reports ENODEV, so end-of-device is exercised by the loop engine only; the child is killed at the end of each run"])
